@@ -536,3 +536,7 @@ def run(ctx, R):
     R.count('R4.4', n4, 8)
     n5 = r45(ctx, R)
     R.count('R4.5', n5, 30)
+    from psa import sqlshape
+    n6 = sqlshape.shape_rule(ctx, R, 'R4.6', [
+        'placement.objects.consumer:_delete_consumer'])
+    R.count('R4.6', n6, 1)
